@@ -158,13 +158,21 @@ def baseline_violations(pid, repo):
     return {(a, b) for a, b, _ in verdicts(rep)['VIOLATION']}
 
 
-def run_matrix(pid, repo, muts, workers=4):
-    from concurrent.futures import ThreadPoolExecutor
+def _run_mutation_job(job):
+    pid, mu, repo = job
+    return run_mutation(pid, mu, repo)
+
+
+def run_matrix(pid, repo, muts, workers=None):
+    # one process per variant (the analyses are pure Python and independent): VERIF_SELFTEST_JOBS overrides the default
+    from concurrent.futures import ProcessPoolExecutor
     muts = list(muts) + seeded_mutations(pid) + benign_mutations(pid)
     base = baseline_violations(pid, repo)
     results = []
-    with ThreadPoolExecutor(max_workers=workers) as ex:
-        for res in ex.map(lambda mu: run_mutation(pid, mu, repo), muts):
+    if workers is None:
+        workers = int(os.environ.get('VERIF_SELFTEST_JOBS', '0')) or max(2, min(12, (os.cpu_count() or 4) - 2))
+    with ProcessPoolExecutor(max_workers=workers) as ex:
+        for res in ex.map(_run_mutation_job, [(pid, mu, repo) for mu in muts]):
             # violations already present on the unmutated tree do not count for or against a mutation
             if 'violations' in res:
                 new = [v for v in res['violations'] if tuple(v) not in base]
